@@ -51,35 +51,40 @@ def run(ctx):
              "with basic-key", floor=2)
 
     call = m.fn(CH + ".__call__")
-    g = cfgmod.CFG(call.node)
-    # callback invocation nodes: calls of a value taken from the name map
-    cb_nodes = []
-    for n in g.live_nodes():
-        if n.kind == "stmt" and isinstance(n.ast, ast.Expr) and isinstance(
-                n.ast.value, ast.Call) and isinstance(n.ast.value.func,
-                                                      ast.Name):
-            cb_nodes.append(n)
-    if not cb_nodes:
-        raise AnalysisError("anchor vanished: no callback invocation "
-                            "statement in CompositeHandler.__call__")
-    raises = [n for n in g.live_nodes() if n.kind == "stmt"
-              and isinstance(n.ast, ast.Raise)]
+    # All or nothing, decided on the interpreted paths of __call__ (helpers
+    # the rules do not know are seen through; loops run for two entries): a
+    # callback invocation is a call whose callee is a value taken out of a
+    # container (neither a method nor a global).  On no path that ends in a
+    # raise has a callback been invoked before; and both validation errors
+    # (duplicate name, missing name) exist as raising paths.
+    from zcstatic import absint as A
+    paths = A.Interp(call, P, loop_policy=A.carried_state_policy(call.node),
+                     try_raises=False).paths()
+
+    def is_callback(e):
+        return e[0] == "call" and e[1][1][0] not in ("attr", "global")
+    n_cb_paths = 0
+    raising = 0
     bad = []
-    for cb in cb_nodes:
-        reach = g.reach_from(cb, labels=("next", "true", "false"))
-        for r in raises:
-            if r.id in reach and r is not cb:
-                bad.append("raise at line %d is reachable after the callback "
-                           "at line %d" % (r.lineno, cb.lineno))
-    # If no raise can follow a callback, then whenever __call__ raises no
-    # callback has run: that is the whole of "all or nothing" at CFG level
-    # (that missing and duplicate names *are* detected is R2).
-    run.check(not bad and len(raises) >= 2, "C16.R1",
+    for p in paths:
+        cbs = [e for e in p.effects if is_callback(e)]
+        if cbs:
+            n_cb_paths += 1
+        if p.outcome[0] == "raise":
+            raising += 1
+            # effects are in program order; the raise is the last event
+            if cbs:
+                bad.append("a path raises %s after invoking %s"
+                           % (p.outcome[1], A.fmt(cbs[0][1])[:60]))
+    if not n_cb_paths:
+        raise AnalysisError("anchor vanished: no callback invocation on any "
+                            "path of CompositeHandler.__call__")
+    run.check(not bad and raising >= 2, "C16.R1",
               call.qualname, "validate everything, then call",
-              "%d raise statements, none reachable from any of the %d "
-              "callback invocation nodes" % (len(raises), len(cb_nodes)),
-              "; ".join(bad) or "fewer than two validation raises",
-              loc=m.loc(call, call.node))
+              "%d paths raise, none of them after a callback invocation (%d "
+              "paths invoke callbacks)" % (raising, n_cb_paths),
+              "; ".join(sorted(set(bad))[:3]) or "fewer than two validation "
+              "raises", loc=m.loc(call, call.node))
 
     crosscheck(ctx, "C16.R2", CH + ".__call__", REF, "composite_call", CH,
                "convert names, refuse duplicates, collect missing, call "
